@@ -14,7 +14,7 @@ CLAIMS = {
   "single-fault model (one storage op of the tagged request fails once); crash = prefix of the physical write sequence; schedules = orderings of storage ops under sys/token and sys/expire; " + ASSUME_COMMON,
   "runtime monitor: reference-model oracle over histories + single-fault/crash-prefix enumeration + gated storage-operation scheduler", "DESIGN.md §4 C04"),
  "C11": ("fault_enumeration",
-  "Order oracle over (audit device outcome, backend handler entry, client receipt) events from one sequence counter, for every assignment of ok/err/panic to (device, phase) with k<=3 devices (k=4 sampled) x 14 request kinds on a real core; canary search with independently recomputed HMACs over entries emitted by the real formatter for generated payload shapes; whole-file scan of the built-in file device.",
+  "Order oracle over (audit device outcome, backend handler entry, client receipt) events from one sequence counter, for every assignment of ok/err/panic to (device, phase) with k<=3 devices (k=4 sampled) x 14 request kinds on a real core; canary search with independently recomputed HMACs over entries emitted by the real formatter for generated payload shapes; whole-file scan of the built-in file device. String leaves come in 23 shape classes (digit-only PIN / OTP / epoch, near- and exact RFC 3339, keywords, numbers, JSON-looking, base64 / hex / UUID, empty, whitespace, very long, unicode, field names, hmac look-alikes); the real file and socket devices run on a core with their targets failing the way an operating system fails them (/dev/full, replaced or bad descriptors, removed directory, dead or vanished peer) and the order clause is decided on what an enabled device actually holds (entries read back and matched by request id), never on a device's return value.",
   "device failures are scripted (programmable devices); non-HMAC exemption read as 'some map key on the path is listed'; " + ASSUME_COMMON,
   "runtime monitor: event-order oracle under enumerated audit-device fault patterns + plaintext-canary search of formatted entries", "DESIGN.md §4 C11"),
  "C18": ("exploration",
